@@ -71,7 +71,7 @@ Next == UNCHANGED st
 In == InOf(st.x, st.y, st.kern, st.cg)
 A6 == [i \in 1..Len(st.al) |->
          (IF Mode = "csvc" THEN (IF st.y[i] > 0 THEN 1 ELSE -1) ELSE 1) * st.al[i] * U6]
-Rho6 == st.rho * U6
+Rho6 == [v |-> V6(st.rho * U6), s |-> 0]
 Accepted ==
   CASE Mode = "csvc" -> CsvcWhy(In, A6, Rho6) = "none"
     [] Mode = "oneclass" -> OneclassWhy(In, A6, Rho6) = "none"
